@@ -55,6 +55,15 @@ def setup_logging(args):
     return log_level
 
 
+def _str2bool(value):
+    # argparse's `type=bool` treats any non-empty string, including "False", as True
+    if value.lower() in ("true", "t", "yes", "y", "1"):
+        return True
+    if value.lower() in ("false", "f", "no", "n", "0"):
+        return False
+    raise argparse.ArgumentTypeError(f"Boolean value expected, got '{value}'")
+
+
 def tsdate_cli_parser():
     top_parser = argparse.ArgumentParser(
         description=(
@@ -236,7 +245,7 @@ def tsdate_cli_parser():
     parser.add_argument(
         "--erase-flanks",
         "--trim_telomeres",
-        type=bool,
+        type=_str2bool,
         help=(
             "Should all material before the first site and after the "
             "last site be trimmed, regardless of the length of these "
@@ -246,7 +255,7 @@ def tsdate_cli_parser():
     )
     parser.add_argument(
         "--split-disjoint",
-        type=bool,
+        type=_str2bool,
         help=(
             "Should disjoint nodes, that disappear from the trees then "
             "reappear further along the genome, be split into separate nodes. "
@@ -324,7 +333,10 @@ def run_preprocess(args):
     except tskit.FileFormatError as ffe:
         error_exit(f"FileFormatError loading '{args.tree_sequence}: {ffe}")
     snipped_ts = tsdate.preprocess_ts(
-        ts, minimum_gap=args.minimum_gap, erase_flanks=args.erase_flanks
+        ts,
+        minimum_gap=args.minimum_gap,
+        erase_flanks=args.erase_flanks,
+        split_disjoint=args.split_disjoint,
     )
     snipped_ts.dump(args.output)
 
